@@ -301,12 +301,10 @@ def gen_op(rng, pool, in_bind, stats, multi_client, nrt=True):
         elif m in ('move_before', 'move_after'):
             op['t'] = rng.choice(nodes)
         elif m in ('move_to_head', 'move_to_tail'):
-            if groups and (multi_client or rng.random() < 0.7):
+            if groups and rng.random() < (0.5 if multi_client else 0.7):
                 op['t'] = rng.choice(groups)
-            elif multi_client:
-                return gen_op(rng, pool, in_bind, stats, multi_client, nrt)
             else:
-                op['t'] = None
+                op['t'] = None      # the default group of the node's own server
         elif m == 'dump_tree':
             op['controls'] = rng.choice([True, False])
         elif m == 'get':
